@@ -56,7 +56,7 @@ theorem encLinks_eq (h : Heap) (L : List Nat) :
 
 theorem encRecord_eq (h : Heap) (L : List Nat) (n : Node) (r : List Nat) (hlen : n.labels.length = n.links.length)
     (hres : encRecord h (searchGE L) n = .ok r) :
-    r = encodeUint64 (searchGE L n.id) ++ encodeUint64 n.numWords ++ [if n.final then 1 else 0]
+    r = encodeUint64 (searchGE L n.id) ++ encodeUint64 n.numWords ++ [if n.final then Gen.Dawg.finalTrueByte else Gen.Dawg.finalFalseByte]
           ++ encodeUint64 n.labels.length ++ childBytes n.labels (n.links.map (posOf h L))
       ∧ ∀ q ∈ n.links, ∃ qn, h[q]? = some qn := by
   unfold encRecord at hres
@@ -112,11 +112,17 @@ theorem decChildren_childBytes :
         rw [Array.size_setIfInBounds]
         exact hsmall t' (List.mem_cons_of_mem _ ht')
 
+/-- the flag bytes written by `GobEncode` are read back correctly by `GobDecode` (re-checked on every run against the
+regenerated constants; any pair of bytes with this property keeps the round trip) -/
+theorem genFinal_consistent :
+    Gen.Dawg.foundFinal = true ∧ Gen.Dawg.decFinalSet Gen.Dawg.finalTrueByte = true ∧
+      Gen.Dawg.decFinalSet Gen.Dawg.finalFalseByte = false := by decide
+
 theorem decRecords_one (ts : Heap) (k idx nw : Nat) (fin : Bool) (labs tgts rest : List Nat) (n0 : Node)
     (hn0 : ts[idx]? = some n0) (hidx : idx < 2 ^ 64) (hnw : nw < 2 ^ 64) (hlabs : labs.length < 2 ^ 64)
     (hlen : labs.length = tgts.length) (htg : ∀ t ∈ tgts, t < ts.size ∧ t < 2 ^ 64) :
     decRecords ts (k + 1)
-        ((encodeUint64 idx ++ encodeUint64 nw ++ [if fin then 1 else 0] ++ encodeUint64 labs.length
+        ((encodeUint64 idx ++ encodeUint64 nw ++ [if fin then Gen.Dawg.finalTrueByte else Gen.Dawg.finalFalseByte] ++ encodeUint64 labs.length
           ++ childBytes labs tgts) ++ rest)
       = decRecords (ts.setIfInBounds idx { n0 with numWords := nw, final := fin, labels := labs, links := tgts }) k rest := by
   have hlt : idx < ts.size := by
@@ -129,9 +135,11 @@ theorem decRecords_one (ts : Heap) (k idx nw : Nat) (fin : Bool) (labs tgts rest
   rw [decodeUint64_encodeUint64_append labs.length hlabs]
   simp only [Array.setIfInBounds_setIfInBounds]
   rw [decChildren_childBytes labs tgts _ idx
-    { n0 with numWords := nw, final := decide ((if fin then 1 else 0) ≠ 0), labels := [], links := [] } rest hlen]
+    { n0 with numWords := nw, final := Gen.Dawg.decFinalSet (if fin then Gen.Dawg.finalTrueByte else Gen.Dawg.finalFalseByte), labels := [], links := [] } rest hlen]
   · simp only [Array.setIfInBounds_setIfInBounds, List.nil_append]
-    cases fin <;> simp
+    cases fin
+    · simp only [Bool.false_eq_true, if_false, genFinal_consistent.2.2]
+    · simp only [if_true, genFinal_consistent.2.1]
   · rw [Array.getElem?_setIfInBounds_self]; simp [hlt]
   · intro t ht; rw [Array.size_setIfInBounds]; exact htg t ht
 
